@@ -495,11 +495,16 @@ func (s *sess) onDial(id int, nc *nbio.Conn, err error) {
 
 // settle waits until everything queued on the engine's async queue so far has run.
 func (s *sess) settle() {
-	ch := make(chan struct{})
-	s.g.Async(func() { close(ch) })
-	select {
-	case <-ch:
-	case <-time.After(3 * time.Second):
+	// three rounds: a callback that runs from the queue may itself queue a notification (a dial callback that closes the
+	// conn queues the close notification) — what it queued runs before the next round's marker
+	for round := 0; round < 3; round++ {
+		ch := make(chan struct{})
+		s.g.Async(func() { close(ch) })
+		select {
+		case <-ch:
+		case <-time.After(60 * time.Second):
+			return
+		}
 	}
 }
 
@@ -749,10 +754,10 @@ func (s *sess) stop(e *lp.Exec) bool {
 	s.stopped = true
 	done := make(chan struct{})
 	go func() { s.g.Stop(); close(done) }()
-	select {
-	case <-done:
+	if vsys.WaitPatient(done, 5*time.Second) { // 5 s in which this process was scheduled, however long that takes
 		return true
-	case <-time.After(5 * time.Second):
+	}
+	{
 		e.Oracle("c03-close-once", "Stop did not return within 5s (a close notification is missing)")
 		if os.Getenv("HLIFE_DUMP") != "" {
 			buf := make([]byte, 1<<20)
@@ -1522,7 +1527,7 @@ func exec(e *lp.Exec) {
 				s.mu.Unlock()
 			}
 			myid := id
-			err := s.g.DialAsyncTimeout("tcp", addr, 2*time.Second, func(nc *nbio.Conn, err error) { s.onDial(myid, nc, err) })
+			err := s.g.DialAsyncTimeout("tcp", addr, 30*time.Second, func(nc *nbio.Conn, err error) { s.onDial(myid, nc, err) })
 			if err != nil {
 				s.mu.Lock()
 				ci.dials = append(ci.dials, errClass(err))
